@@ -23,10 +23,13 @@ IsSample(c) == c \notin {"array", "array-float"}
 ChF(t, cols, named, tup) == [t |-> t, cols |-> cols, named |-> named, tup |-> tup]
 Perms == {<<1>>, <<2>>, <<3>>, <<1, 2>>, <<2, 1>>, <<1, 3>>, <<3, 1>>, <<2, 3>>, <<3, 2>>,
           <<1, 2, 3>>, <<1, 3, 2>>, <<2, 1, 3>>, <<2, 3, 1>>, <<3, 1, 2>>, <<3, 2, 1>>}
-Spell(p, v) == [j \in 1..Len(p) |-> CASE v = "pos" -> 0 [] v = "name" -> 1 [] OTHER -> (j + p[1]) % 2]
+(* spelling of each requested channel: 0 position, 1 name, 2 NEGATIVE position (counted from the last channel; the    *)
+(* first channel is -C); "mixed" alternates positions and names                                                        *)
+Spell(p, v) == [j \in 1..Len(p) |-> CASE v = "pos" -> 0 [] v = "name" -> 1 [] v = "neg" -> 2 [] OTHER -> (j + p[1]) % 2]
 ChForms == {ChF("none", <<>>, <<>>, FALSE)}
-           \cup {ChF("scalar", <<c>>, <<n>>, FALSE) : c \in 1..C, n \in {0, 1}}
+           \cup {ChF("scalar", <<c>>, <<n>>, FALSE) : c \in 1..C, n \in {0, 1, 2}}
            \cup {ChF("list", p, Spell(p, v), tu) : p \in Perms, v \in {"pos", "name", "mixed"}, tu \in BOOLEAN}
+           \cup {ChF("list", p, Spell(p, "neg"), FALSE) : p \in {<<1>>, <<3>>, <<1, 2>>, <<3, 1>>, <<1, 2, 3>>}}
 Named(f) == \E j \in 1..Len(f.named) : f.named[j] = 1
 
 Arg(t, vals) == [t |-> t, vals |-> vals]
